@@ -754,13 +754,13 @@ func (in *Interp) builtinAppend(args []Value, sig *types.Signature) Value {
 	}
 	newCap := ubN + ubM
 	if s.N.IsConst() && t.N.IsConst() {
-		// mimic amortised growth so that later appends are in place
-		if newCap < 2*ubN {
-			newCap = 2 * ubN
+		// the capacity the Go runtime would choose (growslice + malloc size classes): whether a later append
+		// writes in place or reallocates decides who aliases whom
+		oldCap := 0
+		if s.Arr != nil && s.C.IsConst() {
+			oldCap = int(s.C.V)
 		}
-		if newCap < 8 {
-			newCap = 8
-		}
+		newCap = goGrowCap(oldCap, ubN+ubM, int(goSizes.Sizeof(elemT)))
 	}
 	if newCap > in.cfg.MaxAlloc {
 		panic(pathEnd{EndUnwind, "append: size exceeds engine limit"})
@@ -1102,3 +1102,34 @@ func (in *Interp) chanSend(x Value, v Value) {
 }
 
 var _ = strings.Contains
+
+var goSizes = types.SizesFor("gc", "amd64")
+
+var goSizeClasses = []int{8, 16, 24, 32, 48, 64, 80, 96, 112, 128, 144, 160, 176, 192, 208, 224, 240, 256, 288, 320, 352, 384, 416, 448, 480, 512, 576, 640, 704, 768, 896, 1024, 1152, 1280, 1408, 1536, 1792, 2048, 2304, 2688, 3072, 3200, 3456, 4096, 4864, 5376, 6144, 6528, 6784, 6912, 8192, 9472, 9728, 10240, 10880, 12288, 13568, 14336, 16384, 18432, 19072, 20480, 21760, 24576, 27264, 28672, 32768}
+
+// goGrowCap mirrors runtime.growslice (Go 1.20+) for element size es.
+func goGrowCap(oldCap, newLen, es int) int {
+	newcap := oldCap
+	doublecap := 2 * oldCap
+	if newLen > doublecap {
+		newcap = newLen
+	} else if oldCap < 256 {
+		newcap = doublecap
+	} else {
+		for newcap < newLen {
+			newcap += (newcap + 3*256) / 4
+		}
+	}
+	if es <= 0 {
+		return newcap
+	}
+	mem := newcap * es
+	for _, c := range goSizeClasses {
+		if c >= mem {
+			return c / es
+		}
+	}
+	// large allocation: rounded up to pages
+	const page = 8192
+	return ((mem + page - 1) / page * page) / es
+}
